@@ -35,9 +35,19 @@ check("C12", "schemasim", "exploration",
   "Trusts the parser for the input AST (C01), the model's transcription of the documented per-function type support, and that the order policies are a superset of runtime map orders. Corners the property text does not settle are checked for determinism only and counted as model-unsettled:* probes.",
   "deterministic simulation: seeded map-order seam + fault-injecting schema-service stub + reference-model refinement", "DESIGN.md §4 C12")
 
+check("C04", "streamsim", "exploration",
+  "Seeded exploration of the parser driven through a simulated input stream: every run draws a byte string (valid statements, byte-mutated statements, token soups, deep/long inputs, parameter templates), an entry point, a parameter map, a bufio size and a delivery schedule (chunk sizes incl. zero-length reads, a permanent EOF/error at a chosen offset with or without final data, plus a non-contract stratum of transient errors, EOF-then-more and stalls). Invariants per run: no panic; exactly one of result/error; step-bounded termination (absolute budget in library function entries per input byte, and a constant-free doubling test on families unit^n / unit^2n); Read-call bound; the 3-slot pushback rings never overflow; the outcome is independent of the delivery schedule and a stream cut at k equals a clean parse of the first k bytes; returned results print, walk and clone without panic; further parses in the same process (sessions) still terminate. Failures that need earlier operations in the same process are reported with the minimal prelude. Sampling, so evidence not proof.",
+  "Time is measured in simulated steps (function entries) and Read calls, not seconds. Nesting explored to 2*10^4 levels only. The quantifier over all byte strings and bindings is sampled by the generator. Non-contract stream behaviour is judged by the crash/termination oracle only.",
+  "deterministic simulation: fault-injecting simulated input stream + step-budget scheduler hook + truncation-equivalence reference", "DESIGN.md §4 C04")
+check("C05", "streamsim", "fault_enumeration",
+  "For each sampled text (token soups over every token spelling, CR/LF/CRLF mixes, multi-byte and invalid UTF-8, comments, unterminated strings, bad escapes, mutated statements) EVERY truncation offset is enumerated as a crash point, for EOF and for error terminals, under three delivery policies and a drawn bufio size. After every Scan the bytes consumed are computed from I/O accounting (delivered - buffered - pending pushback), giving token extents independent of the positions under test. Invariants: EOF within len+2 tokens and sticky; extents tile the text exactly; every token position equals an independent zero-based line/column counter (CRLF / lone CR one break); tokens far enough from the cut are identical to the fault-free scan; ParseError positions point at the token they name. Exhaustive over crash points per text, sampled over texts.",
+  "Token extents rely on reading bufio.Reader.Buffered() and the scanner's pushback ring through reflect/unsafe; if those fields cannot be found the tiling probe is reported off. Five position defects that the repository's own tests encode are listed in known_findings.json (each keyed by what the wrong position IS, so any other wrong position is still a violation).",
+  "deterministic simulation: crash-point enumeration over a simulated input stream with I/O-accounting tiling oracle", "DESIGN.md §4 C05")
+
 PENDING = {}
 def main():
     engines = [
+      {"name": "streamsim", "path": "sim/engines/streamsim.go, sim/engines/lexsim.go, sim/simstream", "serves_properties": ["C04", "C05"], "kind_free_text": "parser and scanner behind a simulated, fault-injecting io.Reader"},
       {"name": "schemasim", "path": "sim/engines/schemasim.go", "serves_properties": ["C12"], "kind_free_text": "map-order seam + failing schema service + reference expansion model"},
     ]
     na = [{"property_id": k, "reason": v} for k, v in sorted(NA.items())]
